@@ -1,12 +1,12 @@
 import Wx.Kb.Model
-/-! Driver for the keyboard-source stream: `<id> <op;op;…>` with ops `on | off | d | c | y` -> `<id> eof=<n> tasks=<k>`
+/-! Driver for the keyboard-source stream: `<id> <op;op;…>` with ops `on | off | t (another configuration value changes) | d | c | y` -> `<id> eof=<n> tasks=<k>`
     (EOF events the action handler must have seen, `watch_stdin` tasks spawned). The harness settles once more at the end. -/
 namespace Wx.Driver.Kbd
 open Kb
 
 def parseOp (s : String) : Option Op :=
   match s with
-  | "on" => some (.set true) | "off" => some (.set false) | "d" => some .data | "c" => some .close | "y" => some .settle
+  | "on" => some (.set true) | "off" => some (.set false) | "t" => some .poke | "d" => some .data | "c" => some .close | "y" => some .settle
   | _ => none
 
 def handleLine (line : String) : String :=
